@@ -220,7 +220,9 @@ pub fn cfg_from_line(s: &str) -> Cfg {
 
 const USERS: &[&str] = &["user", "alice", "bob-42", "u", "caf\u{e9}", "\u{30de}\u{30c8}\u{30ea}"];
 const PASSWORDS: &[&str] = &["password", "p", "s3cr3t/+=", "TheMatrIX", "pa\u{df}wort", "0123456789abcdef0123456789abcdef0123456789abcdef0123456789abcdef-long"];
-const REALMS: &[&str] = &["example.org", "r", "realm.test", "b\u{fc}ro.example"];
+// ASCII only: the library's quoted-string grammar rejects most non-ASCII text in REALM/NONCE (not a
+// subject of the claimed properties), so non-ASCII realms would only exercise "undecodable challenge"
+const REALMS: &[&str] = &["example.org", "r", "realm.test", "a-much-longer-realm.with.many.labels.example.net"];
 
 fn gen_cfg(p: &Profile, rng: &mut Rng) -> Cfg {
     let default_timing = rng.chance(p.p_default_timing, 1000);
@@ -1175,7 +1177,7 @@ impl<'a> World<'a> {
                         4 => parts.push(format!("lt=401 algs={}", *rng.pick(&["none", "md5", "sha", "md5sha", "shamd5", "unsup", "unsupsha", "empty"]))),
                         5 => parts.push(format!("lt=401 anon={} nonce={}", rng.below(2), *rng.pick(&["plain", "cookie"]))),
                         6 => parts.push(format!("lt=401 {}", *rng.pick(&["norealm", "nononce", "noerr", "noalgs"]))),
-                        _ => parts.push(format!("lt=438 {}", *rng.pick(&["nononce", "norealm", "noerr", "integ=auto"]))),
+                        _ => parts.push(format!("lt=438 {}", *rng.pick(&["nononce", "norealm", "noerr", "noalgs", "integ=auto"]))),
                     }
                 }
                 if mech == Mech::LongTerm && rng.chance(p.p_srv_hostile, 1000) {
